@@ -48,11 +48,22 @@ SerViol(e) ==
         ELSE IF x.err THEN Check(e.prop, "invalid-value-rejected-not-encoded", g.err, c)
         ELSE Check(e.prop, "valid-value-encoded", ~g.err, c)
              \cup (IF g.err THEN {} ELSE Check(e.prop, "encoded-exactly-as-specified", g.bytes = x.bytes, c)))
+AesOne(e, r, which) ==
+  LET x == e.exp  c == [layer |-> "AES128CBC", class |-> which] IN
+  Check("C05", "serializer-no-panic", ~Has(r, "panic"), c)
+  \cup Check("C08", "aes-serialises", ~r.err, c)
+  \cup (IF r.err \/ Has(r, "panic") THEN {}
+        ELSE Check("C08", "aes-ciphertext-decrypts-to-payload-and-specified-pad", Has(r, "plain") /\ r.plain = x.plain /\ r.len = 16 + Len(x.plain), c)
+             \cup Check("C08", "aes-decode-returns-original-payload", r.decErr = FALSE /\ Has(r, "decPayload") /\ r.decPayload = x.payload, c))
+AesViol(e) == AesOne(e, e.got.fresh, "fresh-buffer") \cup AesOne(e, e.got.reused, "reused-buffer")
+              \cup (IF Has(e.got.fresh, "iv") /\ Has(e.got.reused, "iv")
+                    THEN Check("C03", "iv-fresh", e.got.fresh.iv # e.got.reused.iv, [layer |-> "AES128CBC", class |-> "two-serialisations"]) ELSE {})
 NewViol == LET e == Ev IN
   IF Has(e, "harnessError") THEN Check("HARNESS", "vector", FALSE, [layer |-> "?", class |-> "?"])
   ELSE IF e.kind = "decode" THEN DecodeViol(e)
   ELSE IF e.kind = "reuse" THEN ReuseViol(e)
   ELSE IF e.kind = "serialize" THEN SerViol(e)
+  ELSE IF e.kind = "aes" THEN AesViol(e)
   ELSE {}
 
 IsKnown(v) == \E i \in 1..Len(Known) : LET k == Known[i] IN k.prop = v.prop /\ k.pred = v.pred
